@@ -8,7 +8,12 @@ the proofs (KestrelProofs.FfiSrc, KestrelProps.C18ffi) must still build; for a l
 tools/selftest_keyring.py: every edit is a text substitution applied to a scratch copy of src/ffi/ (taken from repo-src/,
 $KESTREL_REPO or /repo, which are only read), translated with KESTREL_REPO=<scratch> into a scratch copy of the lake project and
 built there; everything lives in a temporary directory inside this working copy and is removed at the end; row `base` is the
-unchanged source (it must reproduce the committed GeneratedFfi.lean and build).  Exit status 0 iff every row is as expected.
+unchanged source (it must reproduce the committed GeneratedFfi.lean and build).  Every seeded/B*-b*/patch.diff (harmless) and
+seeded/C*-m*/patch.diff (breaking) that touches one of the two files is a row of its own (applied with `patch -p1`); a row of the
+table may name seeded patches to be applied before its substitutions ("a harmless rewrite with a mistake in it": the rows
+`…@B5-b6`).  For the breaking rows the table says how the row must be caught where that matters: 'proof' = the translator must
+accept it and a proof must fail (a refusal would not show that the proofs look at the construct).
+Exit status 0 iff every row is as expected.
 Environment: SELFTEST_JOBS=<n> workers (default 3), SELFTEST_KEEP=1, SELFTEST_ONLY=<substring,substring>.
 """
 import os, re, shutil, subprocess, sys, tempfile, time, queue
@@ -28,7 +33,13 @@ LET_OUT = '    let kderived_key = std::slice::from_raw_parts_mut(derived_key, dk
 WRITE = '    kderived_key.copy_from_slice(dk.as_slice());\n'
 USE = 'use kestrel_crypto::scrypt as ktl_scrypt;\n'
 
-# (name, kind, [(file, old, new, occurrences expected)], what it is)
+# B5-b6: `unsafe fn input_bytes<'a>(ptr: *const c_uchar, len: size_t) -> &'a [u8] { slice::from_raw_parts(ptr, len) }`
+HELPER_SIG = "unsafe fn input_bytes<'a>(ptr: *const c_uchar, len: size_t) -> &'a [u8] {\n"
+HELPER_BODY = '    slice::from_raw_parts(ptr, len)\n'
+CALL_PW = 'input_bytes(password, password_len)'
+CALL_SALT = 'input_bytes(salt, salt_len)'
+
+# (name, kind, [(file, old, new, occurrences expected)], what it is[, [seeded patches applied first][, 'proof']])
 HAND = [
     # ---- harmless
     ('H1-rename-locals', 'harmless',
@@ -84,6 +95,56 @@ HAND = [
     ('X20-header-missing-const', 'breaking', [(H, 'const unsigned char* salt', 'unsigned char* salt', 1)], 'header: `salt` without `const`'),
     ('X21-no-write', 'breaking', [(RS, WRITE, '', 1)], 'the result is never written'),
     ('X22-not-exported', 'breaking', [(RS, '#[no_mangle]\n', '', 1)], 'without #[no_mangle]'),
+    # ---- private helper functions (seeded/B5-b6 moves the two from_raw_parts calls into `input_bytes(ptr, len)`); harmless
+    ('H11-helper-renamed@B5-b6', 'harmless',
+     [(RS, 'input_bytes', 'scrypt_view', 3), (RS, "(ptr: *const c_uchar, len: size_t)", "(start: *const c_uchar, count: size_t)", 1),
+      (RS, 'from_raw_parts(ptr, len)', 'from_raw_parts(start, count)', 1)], 'the helper and its parameters renamed', ['B5-b6']),
+    ('H12-helper-params-reordered@B5-b6', 'harmless',
+     [(RS, "(ptr: *const c_uchar, len: size_t)", "(len: size_t, ptr: *const c_uchar)", 1), (RS, CALL_PW, 'input_bytes(password_len, password)', 1),
+      (RS, CALL_SALT, 'input_bytes(salt_len, salt)', 1)], 'the helper takes (len, ptr); the calls follow', ['B5-b6']),
+    ('H13-helper-for-output@B5-b6', 'harmless',
+     [(RS, '// Views', "unsafe fn output_bytes<'a>(n: size_t, to: *mut c_uchar) -> &'a mut [u8] {\n    slice::from_raw_parts_mut(to, n)\n}\n\n// Views", 1),
+      (RS, 'slice::from_raw_parts_mut(derived_key, dk_len)', 'self::output_bytes(dk_len, derived_key)', 1)],
+     'a second helper (other parameter order) for the output region, called as `self::…`', ['B5-b6']),
+    ('H14-helper-nested-inline-attr@B5-b6', 'harmless',
+     [(RS, '// Views', "#[inline]\nunsafe fn view<'a>(len: size_t, cap: size_t, ptr: *const c_uchar) -> &'a [u8] {\n    input_bytes(ptr, len)\n}\n\n// Views", 1),
+      (RS, CALL_PW, 'view(password_len, salt_len, password)', 1), (RS, CALL_SALT, 'view(salt_len, password_len, salt)', 1)],
+     'a helper that calls the helper, with an unused parameter and #[inline]', ['B5-b6']),
+    # ---- … and breaking: the construct misused (to be caught by a proof, not by a refusal)
+    ('X23-helper-salt-ptr-password-len@B5-b6', 'breaking', [(RS, CALL_PW, 'input_bytes(salt, password_len)', 1)],
+     'the password view is made from the salt pointer', ['B5-b6'], 'proof'),
+    ('X24-helper-calls-swapped@B5-b6', 'breaking', [(RS, CALL_PW, 'input_bytes(SALT)', 1), (RS, CALL_SALT, CALL_PW, 1), (RS, 'input_bytes(SALT)', CALL_SALT, 1)],
+     'kpass is the salt view and ksalt the password view', ['B5-b6'], 'proof'),
+    ('X25-helper-lengths-swapped@B5-b6', 'breaking', [(RS, CALL_PW, 'input_bytes(password, salt_len)', 1), (RS, CALL_SALT, 'input_bytes(salt, password_len)', 1)],
+     'the two lengths exchanged between the helper calls', ['B5-b6'], 'proof'),
+    ('X26-helper-body-zero-len@B5-b6', 'breaking', [(RS, HELPER_BODY, '    slice::from_raw_parts(ptr, 0)\n', 1)], 'the helper returns an empty view', ['B5-b6'], 'proof'),
+    ('X27-helper-wrong-position@B5-b6', 'breaking',
+     [(RS, "(ptr: *const c_uchar, len: size_t)", "(ptr: *const c_uchar, cap: size_t, len: size_t)", 1), (RS, CALL_PW, 'input_bytes(password, password_len, salt_len)', 1),
+      (RS, CALL_SALT, 'input_bytes(salt, salt_len, password_len)', 1)], 'helper (ptr, cap, len), called as if it were (ptr, len, cap)', ['B5-b6'], 'proof'),
+    ('X28-helper-reordered-calls-not@B5-b6', 'breaking',
+     [(RS, "(ptr: *const c_uchar, len: size_t)", "(ptr: *const c_uchar, other: size_t, len: size_t)", 1), (RS, HELPER_BODY, '    slice::from_raw_parts(ptr, other)\n', 1),
+      (RS, CALL_PW, 'input_bytes(password, salt_len, password_len)', 1), (RS, CALL_SALT, 'input_bytes(salt, password_len, salt_len)', 1)],
+     'the helper body uses the wrong one of two length parameters', ['B5-b6'], 'proof'),
+    ('X29-helper-nested-swapped@B5-b6', 'breaking',
+     [(RS, '// Views', "unsafe fn view<'a>(len: size_t, cap: size_t, ptr: *const c_uchar) -> &'a [u8] {\n    input_bytes(ptr, cap)\n}\n\n// Views", 1),
+      (RS, CALL_PW, 'view(password_len, salt_len, password)', 1), (RS, CALL_SALT, 'view(salt_len, password_len, salt)', 1)],
+     'a helper that calls the helper with the wrong length', ['B5-b6'], 'proof'),
+    ('X30-helper-output-to-password-len@B5-b6', 'breaking',
+     [(RS, '// Views', "unsafe fn output_bytes<'a>(n: size_t, to: *mut c_uchar) -> &'a mut [u8] {\n    slice::from_raw_parts_mut(to, n)\n}\n\n// Views", 1),
+      (RS, 'slice::from_raw_parts_mut(derived_key, dk_len)', 'output_bytes(password_len, derived_key)', 1)],
+     'output helper called with the password length', ['B5-b6'], 'proof'),
+    # … misuse that leaves the subset or alters the exported symbols (a refusal is the expected outcome)
+    ('X31-helper-len-minus-1@B5-b6', 'breaking', [(RS, HELPER_BODY, '    slice::from_raw_parts(ptr, len - 1)\n', 1)], 'arithmetic on the length inside the helper', ['B5-b6']),
+    ('X32-helper-no_mangle@B5-b6', 'breaking', [(RS, 'unsafe fn input_bytes', '#[no_mangle]\nunsafe fn input_bytes', 1)], 'the helper is exported (#[no_mangle])', ['B5-b6']),
+    ('X33-helper-pub-extern@B5-b6', 'breaking', [(RS, 'unsafe fn input_bytes', '#[no_mangle]\npub unsafe extern "C" fn input_bytes', 1)],
+     'the helper is an exported C function', ['B5-b6']),
+    ('X34-helper-export_name@B5-b6', 'breaking', [(RS, 'unsafe fn input_bytes', '#[export_name = "scrypt_v2"]\nunsafe fn input_bytes', 1)],
+     'the helper is exported under another name', ['B5-b6']),
+    ('X35-helper-mut-from-const@B5-b6', 'breaking',
+     [(RS, '// Views', "unsafe fn output_bytes<'a>(to: *const c_uchar, n: size_t) -> &'a mut [u8] {\n    slice::from_raw_parts_mut(to as *mut c_uchar, n)\n}\n\n// Views", 1),
+      (RS, 'slice::from_raw_parts_mut(derived_key, dk_len)', 'output_bytes(password, dk_len)', 1)],
+     'a helper that casts away `const`, used to write to `password`', ['B5-b6']),
+    ('X36-helper-recursive@B5-b6', 'breaking', [(RS, HELPER_BODY, '    input_bytes(ptr, len)\n', 1)], 'the helper calls itself', ['B5-b6']),
 ]
 
 
@@ -115,9 +176,14 @@ def decl_at(lean_file, lineno):
     return ''
 
 
+def files_of_patch(diff):
+    with open(diff, encoding='utf-8') as f:
+        return {m.group(1) for m in re.finditer(r'(?m)^\+\+\+ b/(\S+)', f.read())}
+
+
 class Case:
-    def __init__(self, name, kind, edits, what):
-        self.name, self.kind, self.edits, self.what = name, kind, edits, what
+    def __init__(self, name, kind, edits, what, patches=None, how=None):
+        self.name, self.kind, self.edits, self.what, self.patches, self.how = name, kind, edits, what, patches or [], how
         self.translate = self.build = self.verdict = ''
         self.ok = False
 
@@ -126,6 +192,12 @@ def run_case(case, tmp, workers):
     tree = os.path.join(tmp, 'repo-' + case.name)
     try:
         shutil.copytree(os.path.join(PRISTINE, 'src', 'ffi'), os.path.join(tree, 'src', 'ffi'), ignore=shutil.ignore_patterns('target'))
+        for pt in case.patches:
+            diff = os.path.join(ROOT, 'seeded', pt, 'patch.diff')
+            outside = files_of_patch(diff) - {RS, H}
+            if outside: raise RuntimeError(f'seeded/{pt} also changes {", ".join(sorted(outside))}')
+            rc, out = sh(['patch', '-p1', '--no-backup-if-mismatch', '-i', diff], tree)
+            if rc != 0: raise RuntimeError(f'seeded/{pt} does not apply: {out.strip()[-80:]}')
         for rel, old, new, count in case.edits:
             path = os.path.join(tree, rel)
             with open(path, encoding='utf-8') as f: text = f.read()
@@ -156,6 +228,8 @@ def run_case(case, tmp, workers):
     if case.kind == 'harmless':
         case.ok = tr_ok and b_ok and 'DIFFERS' not in case.translate
         case.verdict = 'ok (accepted)' if case.ok else 'FALSE ALARM'
+    elif case.how == 'proof' and refused:
+        case.verdict = 'REFUSED (a failing proof is expected)'
     elif refused or (tr_ok and case.build.startswith('FAILS')):
         case.ok, case.verdict = True, 'ok (caught)'
     else:
@@ -168,7 +242,15 @@ def main():
         print(__doc__); return 2
     jobs = max(1, int(os.environ.get('SELFTEST_JOBS', '3')))
     only = [s for s in os.environ.get('SELFTEST_ONLY', '').split(',') if s]
-    cases = [Case('base', 'harmless', [], 'unchanged source')] + [Case(*h) for h in HAND]
+    cases = [Case('base', 'harmless', [], 'unchanged source')]
+    seeded = os.path.join(ROOT, 'seeded')
+    for d in sorted(os.listdir(seeded)) if os.path.isdir(seeded) else []:
+        m = re.match(r'^([BC])\d+-[bm]\d+$', d)
+        diff = os.path.join(seeded, d, 'patch.diff')
+        if not m or not os.path.exists(diff) or not (files_of_patch(diff) & {RS, H}): continue
+        if files_of_patch(diff) - {RS, H}: continue       # also changes files this translation does not read: the area of another self-test
+        cases.append(Case(d, 'harmless' if m.group(1) == 'B' else 'breaking', [], 'seeded ' + ('harmless' if m.group(1) == 'B' else 'breaking') + ' patch', [d]))
+    cases += [Case(*h) for h in HAND]
     if only: cases = [c for c in cases if c.name == 'base' or any(s in c.name for s in only)]
     tmp = tempfile.mkdtemp(prefix='.selftest_ffi_', dir=ROOT)
     t0 = time.time()
